@@ -32,7 +32,9 @@ func header(in string) bool {
 	p, e := in[:len(in)-1], in[len(in)-1]
 	switch e {
 	case '.', ':', ')':
-		if listMarker[p] {
+		// The first rune of a word keeps its case when the tokenizer is not
+		// normalizing (Normalize); "A." is the same list marker as "a.".
+		if listMarker[strings.ToLower(p)] {
 			if e != ')' {
 				return true
 			}
